@@ -1021,6 +1021,13 @@ def gen_tlc2(rng, knobs=None):
     else:
         b = behaviours[rng.randrange(len(behaviours))]
     opts = {'mode': rng.choice(['tcp', 'tcp', 'msg']), 'frag': None, 'read_buffer': rng.choice([1, 7, 1024])}
+    fragmented = bool(b.get('frag'))
+    if fragmented:
+        opts['frag'] = 64
+
+    def elem():
+        return rng.choice([[80, 0], [100, 0], [60, 30], [0, 90]]) if fragmented else spec(rng, big=False)
+
     prog = [['start'], ['pump'], ['gate_close', 'c'], ['gate_close', 's']]
     p_settle = rng.choice([1.0, 0.7, 0.4])
     ref = {}
@@ -1030,7 +1037,7 @@ def gen_tlc2(rng, knobs=None):
 
     for act in b['actions']:
         name, args = act[0], act[1:]
-        if name == 'Send':
+        if name in ('Send', 'SendOf'):
             prog.append(['gate', args[0], 1])
             continue
         if name in ('Quiesce2',):
@@ -1042,11 +1049,11 @@ def gen_tlc2(rng, knobs=None):
         kind, R = d['kind'], d['init']
         if base == 'Open':
             ref[X] = len(ref)
-            sp = spec(rng, big=False)
+            sp = rng.choice([[5, 0], [20, 10], [1, 0]]) if fragmented else spec(rng, big=False)
             if kind == 'rr':
                 prog.append(['rr', R, sp, {'mode': 'later'}])
             else:
-                pol = {'src': 'generator', 'items': items(rng, 1, big=False), 'complete_on_last': True} if d.get('lib') else {'src': 'scripted'}
+                pol = {'src': 'generator', 'items': [elem()], 'complete_on_last': True} if d.get('lib') else {'src': 'scripted'}
                 prog.append(['stream', R, sp, args[0], pol, True])
             continue
         if X not in ref:
@@ -1055,12 +1062,12 @@ def gen_tlc2(rng, knobs=None):
         if base == 'Deliver':
             prog.append(['deliver_frame', 's' if args[0] == 'c' else 'c', maybe_settle()])
         elif base == 'Respond':
-            prog.append(['respond_error', r] if args[0] else ['respond', r, spec(rng, big=False)])
+            prog.append(['respond_error', r] if args[0] else ['respond', r, elem()])
             if maybe_settle():
                 prog.append(['settle'])
         elif base == 'PubNext':
             if not d.get('lib'):
-                sp = spec(rng, big=False)
+                sp = elem()
                 prog.append(['emit', r, args[0], sp[0], sp[1], 1 if args[1] else 0])
             else:
                 prog.append(['settle'])
